@@ -297,6 +297,20 @@ func regroupHollowHeader(c *crash) {
 			return
 		}
 	}
+	// Only when the accessor chain was started by the harness (or by the codec layer itself:
+	// packages types and pb). A production consumer (core, pubsubManager, quaiapi, quai, rawdb ...)
+	// that reaches a header accessor without having checked the body is a missing guard of that
+	// consumer and is named after it.
+	for _, f := range c.frames {
+		s := shortFn(f.fn)
+		if !strings.HasPrefix(f.fn, quaiPrefix) || isUtility(s) {
+			continue
+		}
+		if !strings.HasPrefix(s, "types.") && !strings.HasPrefix(s, "pb.") {
+			c.fp = s + "/" + c.kind + "@types.Header"
+			return
+		}
+	}
 	c.site, c.fp = c.fp, bodyHeaderAbsent
 }
 
@@ -449,6 +463,7 @@ func grouped(group string, f func()) {
 // finding is a known one; otherwise the test has already been failed).
 func (p *probe) run(t stats.TB, f func()) (ok bool) {
 	t.Helper()
+
 	lastCrash = nil
 	stepCrashes = stepCrashes[:0]
 	g0 := 0
@@ -519,6 +534,14 @@ func (p *probe) run(t stats.TB, f func()) (ok bool) {
 		}
 	}
 	return ok
+}
+
+// exact returns a copy of b whose capacity equals its length, so that code slicing past the end
+// of its input panics instead of silently reading the spare capacity.
+func exact(b []byte) []byte {
+	c := make([]byte, len(b))
+	copy(c, b)
+	return c
 }
 
 // known reports (and counts) that the input class behind fp is excluded by construction.
